@@ -3,5 +3,5 @@ From Coq Require Import Arith NArith ZArith.
 Require Import ExtrOcamlBasic.
 Extraction Language OCaml.
 (* N.of_nat / Z.of_nat only bring the number types that the shared OCaml prelude mentions *)
-Extraction "model.ml" Inb.step Inb.run Inb.init Sub.step Sub.run Sub.init fixed prefix spec_b check_actor
+Extraction "model.ml" Inb.step Inb.run Inb.init Sub.step Sub.run Sub.init fixed prefix asis nodefer spec_b spec_q_b check_actor
   actor_of is_cancel body elig dreq dobs N.of_nat Z.of_nat.
